@@ -28,6 +28,7 @@ for m in $(ls -d $DIR/m[0-9]* 2>/dev/null | sort); do
   cp $m/demo.rs $WT/examples/demo_$k.rs
   (cd $WT && timeout 600 cargo run --offline --release $feat --example demo_$k) >>$log 2>&1; mut=$?
   (cd $ME/engine && cargo build --offline --profile checked) >>$log 2>&1; build=$?
+  if [ "$P" = C16 ]; then (cd $ME/engine && cargo build --offline --profile fast) >>$log 2>&1 || build=1; fi
   rm -rf $ME/out/replays
   (cd $ME/engine && timeout 1800 ./target/checked/vcheck $P quick) > $m/check.out 2>&1; chk=$?
   grep -E "VIOLATION|  #" $m/check.out | head -6 >> $log
